@@ -1,5 +1,6 @@
 import Tx3Proofs.C02
 import Tx3Proofs.C02Outputs
+import Tx3Proofs.C02Balance
 #print axioms Tx3.C02_fee_exact
 #print axioms Tx3.C02_validity_exact
 #print axioms Tx3.C02_mint_range
@@ -12,3 +13,10 @@ import Tx3Proofs.C02Outputs
 #print axioms Tx3.assetQty_insertAsset
 #print axioms Tx3.C02_output_exact_partial
 #print axioms Tx3.C02_output_block_exact
+#print axioms Tx3.view_triples
+#print axioms Tx3.range_triples
+#print axioms Tx3.compile_view
+#print axioms Tx3.den_odd
+#print axioms Tx3.C02_source_to_output
+#print axioms Tx3.den_minusAll
+#print axioms Tx3.C02_balance
